@@ -727,11 +727,11 @@ func (E *Engine) VerifyFunc(p *packages.Package, pc *PkgContracts, c *FuncContra
 	res.Errs = append(res.Errs, f.errs...)
 	res.Errs = append(res.Errs, f.cerrs...)
 	// obligation names keep the identifiers the contract was written with (names.go: renamed receiver / locals)
-	if len(c.Unrename) > 0 {
+	if len(c.Unrename) > 0 || len(c.UnrenameText) > 0 {
 		for _, o := range res.Obls {
-			o.Name = unrenameObligation(o.Name, f.key, c.Unrename)
+			o.Name = unrenameObligation(o.Name, f.key, c.Unrename, c.UnrenameText)
 			if o.Guard != nil {
-				o.Guard.Name = unrenameObligation(o.Guard.Name, f.key, c.Unrename)
+				o.Guard.Name = unrenameObligation(o.Guard.Name, f.key, c.Unrename, c.UnrenameText)
 			}
 		}
 	}
